@@ -334,6 +334,12 @@ def scenarios(ctx, specs):
     out.append({'name': 'two-boot-nodes', 'events': [['A', si(boot=True)], ['B', si(boot=True)]],
                 'targets': ['T', 'U'],
                 'steps': [['start', mon], ['dispatch'], ['defer', nextmon]]})
+    # (5c) the 300 s window of defer(), to the microsecond: exactly 300 s is due,
+    # 300 s + 1 us arms a timer (read from the source by delay2coq.py: DelayGen.due)
+    out.append({'name': 'window-exact', 'events': [['A', si(dow=0, time=(0, 5, 1))]],
+                'targets': ['T'], 'steps': [['start', [2026, 3, 2, 0, 0, 1, 0]], ['dispatch']]})
+    out.append({'name': 'window-plus-1us', 'events': [['A', si(dow=0, time=(0, 5, 1))]],
+                'targets': ['T'], 'steps': [['start', [2026, 3, 2, 0, 0, 0, 999999]], ['dispatch']]})
     # (6) seeded random scenarios over mutually independent nodes
     rng = random.Random('%s:C20:scenarios' % ctx.seed)
     groups = [['root'], ['A', 'B'], ['A'], ['B'], ['C'], ['D'], ['E']]
@@ -560,6 +566,103 @@ def scenario_oracle(ctx, sc, trace, engine):
                     dict(rep, theorem='C20_due_once_refuted'))
 
 
+# ---------------------------------------------------------------------------
+# source tie: Gen/DelayGen.v (delay2coq.py) = Model/Delay.v, proved in
+# Proofs/DelayGenEq.v (pattern of props/gen_tie.py)
+# ---------------------------------------------------------------------------
+def source_generate(ctx):
+    ok, msg = ctx.generate('delay2coq.py', 'Gen/DelayGen.v')
+    ctx.trust('translator tools/translate/delay2coq.py (python ast of pl.schedule._delay and of the due test '
+              'of defer -> Gallina, fail closed; the datetime operations are mapped explicitly to the calendar '
+              'of Model/Delay.v: now(), year/month/day, isoweekday, datetime(...), timedelta(days=), +, -); '
+              'validated on every run by a sweep of the generated definition against the real _delay; the '
+              'generated definitions are PROVED equal to Delay.delay / the window test, coq/Proofs/DelayGenEq.v')
+    ctx.cov.setdefault('translated_fingerprints', {})['Python/dawgie/pl/schedule.py'] = \
+        core.fingerprint('Python/dawgie/pl/schedule.py', ['_delay', 'defer'])
+    if not ok:
+        ctx.log('delay2coq.py refuses the source: %s' % msg.strip()[-300:])
+    return {'ok': ok, 'msg': msg}
+
+
+def source_validate(ctx, g, r, specs, inst, out, scs, found):
+    '''g: result of source_generate; r: result of coq_props; found: a failing
+    input (oracle) or a separating input (model correspondence) is already
+    reported by the main study -- the search the tie needs when it breaks IS
+    that study: the oracle over every (instant, spec) of the sweep on the real
+    _delay and the exact comparison with Delay.delay.'''
+    tie_proved = r['ok']
+    bad = None
+    nval = 0
+    if g['ok']:
+        # (1) generated _delay vs the real one: every 5th instant (+ the range
+        # edges at the end of the list) x every specification
+        sel = [k for k in range(len(inst)) if k % 5 == ctx.seed % 5 or k >= len(inst) - 16]
+        pre = COQ_CODE + 'Definition gspecs : list event := [%s].\n' % ';'.join(
+            '(1%%nat, %s)' % coq_moment(s) for s in specs)
+        exprs = ['map (fun e => code (fst (DelayGen.delay [] e %s))) gspecs' % coq_clock(inst[k]) for k in sel]
+        # boot: second evaluation with the list returned by the first
+        boots = [s for s in specs if 'boot' in s]
+        for s in boots:
+            b = '(1%%nat, %s)' % coq_moment(s)
+            exprs.append('let r1 := DelayGen.delay [] %s %s in let r2 := DelayGen.delay (snd r1) %s %s in '
+                         '[code (fst r1); Z.of_nat (List.length (snd r1)); code (fst r2); Z.of_nat (List.length (snd r2))]'
+                         % (b, coq_clock(inst[0]), b, coq_clock(inst[1])))
+        # (2) the due test on the delays the real defer() saw at a first defer()
+        # of a node with one calendar event
+        wcases = []
+        for sc, trace in zip(scs, out['scenarios']):
+            st0, snap = sc['steps'][0], trace[0]
+            if (len(st0) > 2 and st0[2]) or snap['exc'] is not None or not snap.get('pre'):
+                continue
+            per_node = {}
+            for tag, d in snap['pre']['delays']:
+                per_node.setdefault(tag, []).append(d)
+            for tag, ds in per_node.items():
+                if len(ds) == 1 and isinstance(ds[0], int):
+                    wcases.append((sc['name'], tag, ds[0], tag in snap['que']))
+        wvals = sorted({w[2] for w in wcases})
+        exprs.append('map DelayGen.due [%s]' % ';'.join('(%d)' % v for v in wvals))
+        try:
+            vals = ctx.coq_eval(['DV.Model.Delay', 'DV.Gen.DelayGen'], exprs, preamble=pre, chunk=60)
+            for k, mrow in zip(sel, vals[:len(sel)]):
+                for sp, got, mv in zip(specs, out['sweep'][k], mrow):
+                    nval += 1
+                    if model_code(mv) != code_of(got) and bad is None:
+                        bad = {'spec': sp, 'now': inst[k], 'python': got, 'generated': model_code(mv)}
+            for j, s in enumerate(boots):
+                mv = vals[len(sel) + j]
+                iv = out['boot'][j][:2]
+                want = [model_code(mv[0]), mv[1], model_code(mv[2]), mv[3]]
+                have = [code_of(iv[0][0]), iv[0][1], code_of(iv[1][0]), iv[1][1]]
+                nval += 2
+                if want != have and bad is None:
+                    bad = {'spec': s, 'python': have, 'generated': want}
+            duemap = dict(zip(wvals, vals[-1]))
+            for name, tag, d, queued in wcases:
+                nval += 1
+                if duemap[d] is not queued and bad is None:
+                    bad = {'scenario': name, 'node': tag, 'delay_us': d, 'python_queued': queued,
+                           'generated_due': duemap[d]}
+            ctx.note('source_tie_window_cases', {'n': len(wcases), 'due': sum(1 for w in wcases if w[3]),
+                                                 'nearest_us_to_window': min([abs(w[2] - 300 * US) for w in wcases] or [None])})
+        except core.CoqEvalError as e:
+            bad = {'generated': 'Gen/DelayGen.v does not evaluate: %s' % (e.args[1][-600:],)}
+        if bad and not found:
+            ctx.broken('translator validation: the definition generated from pl.schedule._delay / defer '
+                       'disagrees with the python function', repr(bad),
+                       {'source': 'translator-validation', 'spec': bad.get('spec'), 'now': bad.get('now'),
+                        'expected': repr(bad.get('generated')), 'observed': repr(bad.get('python'))})
+    elif not found:
+        ctx.broken('translator delay2coq.py refuses dawgie/pl/schedule.py (_delay / defer changed shape) and '
+                   'neither the oracle nor the comparison with Model/Delay.v over %d instants x %d specifications '
+                   'separates the new code from the old' % (len(inst), len(specs)), g['msg'],
+                   {'source': 'translator'})
+    ctx.note('source_tie_delay', {'translator_ok': g['ok'], 'proved_equal': bool(tie_proved and g['ok']),
+                                  'generated_vs_python_evaluations': nval,
+                                  'generated_vs_python_mismatch': bad})
+    return nval
+
+
 def replay(ctx, rp):
     '''./check C20 --replay F : re-execute the recorded case on the real code and
     evaluate the oracle on it.  Returns False when the file names a proof or
@@ -638,6 +741,7 @@ def run(ctx):
         ctx.extra['escalated'] = changed
         ctx.log('fingerprint changed for %s: thorough depth' % changed)
 
+    g = source_generate(ctx)
     r = ctx.coq_props()
     ctx.log('proofs: %s' % r['ok'])
     model_ok = r['ok'] or ctx.coq_build(['Model/Delay.vo'])[0]
@@ -823,6 +927,7 @@ def run(ctx):
                         {'scenario': sc, 'step': j})
             if any(len(e) for e in [sc['events']]) and len(sc['steps']) > 2:
                 keys.append(('scenario', sc['events'], sc['steps']))
+    nev += source_validate(ctx, g, r, specs, inst, out, scs, found_new or bool(mism))
     ctx.count(evaluations=nev, nontrivial_keys=keys)
     ctx.sample({'now': inst[3], 'spec': specs[0], 'impl_us': out['sweep'][3][0]})
     ctx.sample({'now': inst[3], 'spec': specs[35 + 30 * 5], 'impl_us': out['sweep'][3][35 + 30 * 5]})
